@@ -6,6 +6,9 @@ d = '/verif/seeded/%s' % k; os.makedirs(d, exist_ok=True)
 for f in glob.glob('/tmp/seed-%s-out/*' % k):
     n = os.path.basename(f)
     if n.endswith('.txt'): continue
+    if os.path.isdir(f):
+        shutil.copytree(f, os.path.join(d, n), dirs_exist_ok=True)
+        continue
     shutil.copy(f, os.path.join(d, 'agent_meta.json' if n == 'meta.json' else n))
 a = json.load(open(d + '/agent_meta.json'))
 base = os.popen('git -C /repo log --format=%h -1').read().strip()
